@@ -1,10 +1,10 @@
 (** C04 — the fixed file is exactly the fixed tree; templated code is untouched. Pinned statements only. *)
-From Sq Require Import Base.Bytes Patch.Model Patch.Proofs.
+From Sq Require Import Base.Bytes Patch.Model Patch.Proofs Patch.Legacy.
 
-(** What [fix_string] writes for ANY list of patches with well-formed ranges is the source with the
-    normalised patches (first patch per source slice, stable order by start, patches starting
-    before the running end dropped) spliced in: nothing else is dropped, duplicated or moved. *)
-Theorem C04_fix_string_spec : forall src ps, wf_ranges ps -> fix_string src ps = splice src 0 (normalise ps).
+(** What [fix_string] writes for ANY list of patches is the source with the normalised patches
+    (first patch per (source slice, text), stable order by start, patches starting before the
+    running end dropped) spliced in: nothing else is dropped, duplicated or moved. *)
+Theorem C04_fix_string_spec : forall src ps, fix_string src ps = splice src 0 (normalise ps).
 Proof. exact fix_string_spec. Qed.
 Print Assumptions C04_fix_string_spec.
 
@@ -35,3 +35,10 @@ Theorem C04_templated_keeps_partial : forall tf t a b,
   exists pre post, fixed_text tf t = pre ++ sub (src tf) a b ++ post.
 Proof. exact fixed_text_keeps. Qed.
 Print Assumptions C04_templated_keeps_partial.
+
+(** Before the repair (dedupe on the source slice alone, region looked up among all patches) a
+    sorted, non-overlapping patch list with two different insertions at one position lost one. *)
+Theorem C04_legacy_refuted :
+  exists src ps, sorted_chain ps /\ fix_string_legacy src ps <> splice src 0 ps.
+Proof. exact legacy_refuted. Qed.
+Print Assumptions C04_legacy_refuted.
